@@ -21,7 +21,8 @@ from .. import lex_check as F
 from .. import tablefold as T
 
 PID = "C06"
-FORMS = {"lower": "abc_x", "mixed": "MiXed_Id", "upper": "UPPER_ID", "dq": '"My Col1"'.replace(" ", "_"), "bt": "`bt_name`", "br": "[br_name]", "dqU": '"QUOTED"'}
+FORMS = {"lower": "abc_x", "mixed": "MiXed_Id", "upper": "UPPER_ID", "dq": '"My Col1"'.replace(" ", "_"), "bt": "`bt_name`", "br": "[br_name]", "dqU": '"QUOTED"',
+         "dq_kw": '"desc"', "bt_kw": "`Asc`", "br_kw": "[order]", "dq_kw2": '"Comment"'}
 
 
 def strip1(s):
@@ -42,6 +43,12 @@ POSITIONS = [
     ("column_first", "CREATE TABLE t1 ({X} int, b int);", _col(0)),
     ("column_next", "CREATE TABLE t1 (a int, {X} varchar(5) NOT NULL, c int);", _col(1)),
     ("column_last", "CREATE TABLE t1 (a int, b int, {X} int DEFAULT 1);", _col(2)),
+    ("column_after_check", "CREATE TABLE t1 (a int CHECK (a > 0), {X} int, b int);", _col(1)),
+    ("pk_list_after_check", "CREATE TABLE t1 (a int CHECK (a > 0), {X} int, PRIMARY KEY (a, {X}));", lambda r: r[0]["primary_key"][1]),
+    ("constraint_after_check", "CREATE TABLE t1 (a int, b int, CHECK (a > b), CONSTRAINT {X} UNIQUE (a, b));", lambda r: r[0]["constraints"]["uniques"][0]["constraint_name"]),
+    ("pk_list_2nd", "CREATE TABLE t1 (a int, {X} int, PRIMARY KEY (a, {X}));", lambda r: r[0]["primary_key"][1]),
+    ("fk_list", "CREATE TABLE t1 (a int, {X} int, FOREIGN KEY (a, {X}) REFERENCES o (x, y));", lambda r: [c["name"] for c in r[0]["columns"] if c["references"]][1]),
+    ("ref_column_2nd", "CREATE TABLE t1 (a int, b int, FOREIGN KEY (a, b) REFERENCES o (x, {X}));", lambda r: r[0]["columns"][1]["references"]["column"]),
     ("constraint", "CREATE TABLE t1 (a int, b int, CONSTRAINT {X} PRIMARY KEY (a));", lambda r: r[0]["constraints"]["primary_keys"][0]["constraint_name"]),
     ("constraint_unique", "CREATE TABLE t1 (a int, b int, CONSTRAINT {X} UNIQUE (a, b));", lambda r: r[0]["constraints"]["uniques"][0]["constraint_name"]),
     ("pk_list", "CREATE TABLE t1 ({X} int, b int, PRIMARY KEY ({X}));", lambda r: r[0]["primary_key"][0]),
@@ -63,7 +70,11 @@ POSITIONS = [
     ("alter_rename_to", "CREATE TABLE t1 (a int, b int);\nALTER TABLE t1 RENAME COLUMN a TO {X};", lambda r: r[0]["columns"][0]["name"]),
     ("alter_constraint", "CREATE TABLE t1 (a int, b int);\nALTER TABLE t1 ADD CONSTRAINT {X} UNIQUE (a);", lambda r: r[0]["alter"]["uniques"][0]["constraint_name"]),
 ]
-KW_POS = [("column_first", "CREATE TABLE t1 ({X} int, b int);", _col(0)),
+KW_POS = [("column_and_pk_list", "CREATE TABLE t1 (a int, {X} int, PRIMARY KEY (a, {X}));", lambda r: (r[0]["columns"][1]["name"], r[0]["primary_key"][1])[1]),
+          ("column_and_unique_first", "CREATE TABLE t1 (a int, {X} int, CONSTRAINT u1 UNIQUE ({X}, a));", lambda r: r[0]["constraints"]["uniques"][0]["columns"][0]),
+          ("column_and_fk", "CREATE TABLE t1 ({X} int, b int, FOREIGN KEY ({X}) REFERENCES o (id));", lambda r: [c for c in r[0]["columns"] if c["references"]][0]["name"]),
+          ("referenced_column", "CREATE TABLE t1 (a int REFERENCES o ({X}), b int);", lambda r: r[0]["columns"][0]["references"]["column"]),
+          ("column_first", "CREATE TABLE t1 ({X} int, b int);", _col(0)),
           ("column_after_comma", "CREATE TABLE t1 (a int, {X} int);", _col(1)),
           ("column_between_options", "CREATE TABLE t1 (a int NOT NULL DEFAULT 5, {X} varchar(10) NOT NULL, c int);", _col(1))]
 
@@ -87,9 +98,10 @@ def templates(tb):
     t_table = [("kw", kw("CREATE")), ("kw", kw("TABLE")), ("name", ids), ("dot", kw(".")), ("name", ids[:2]), ("lp", kw("(")), ("name", names + low), ("type", kw("int")),
                ("comma", kw(",")), ("name", names), ("type", kw("varchar")), ("kw", kw("NOT")), ("kw", kw("NULL")), ("rp", kw(")"))]
     t_cons = [("kw", kw("CREATE")), ("kw", kw("TABLE")), ("name", ids[:1]), ("lp", kw("(")), ("name", ids[:2]), ("type", kw("int")), ("comma", kw(",")),
-              ("kw", kw("CONSTRAINT")), ("name", names), ("kw", kw("PRIMARY")), ("kw", kw("KEY")), ("lp", kw("(")), ("name", ids), ("rp", kw(")")), ("rp", kw(")"))]
+              ("kw", kw("CONSTRAINT")), ("name", names), ("kw", kw("PRIMARY")), ("kw", kw("KEY")), ("lp", kw("(")), ("name", names), ("comma", kw(",")), ("name", names[:8] + ids),
+              ("rp", kw(")")), ("rp", kw(")"))]
     t_ref = [("kw", kw("CREATE")), ("kw", kw("TABLE")), ("name", ids[:1]), ("lp", kw("(")), ("name", ids[:1]), ("type", kw("int")), ("kw", kw("REFERENCES")),
-             ("name", ids), ("lp", kw("(")), ("name", ids), ("rp", kw(")")), ("comma", kw(",")), ("name", names), ("type", kw("int")), ("rp", kw(")"))]
+             ("name", ids), ("lp", kw("(")), ("name", names), ("rp", kw(")")), ("comma", kw(",")), ("name", names[:10]), ("type", kw("int")), ("rp", kw(")"))]
     t_alter = [("kw", kw("ALTER")), ("kw", kw("TABLE")), ("name", ids), ("kw", kw("ADD")), ("kw", kw("UNIQUE")), ("lp", kw("(")), ("name", ids), ("rp", kw(")"))]
     t_index = [("kw", kw("CREATE")), ("kw", kw("INDEX")), ("name", ids), ("kw", kw("ON")), ("name", ids), ("lp", kw("(")), ("name", ids), ("rp", kw(")"))]
     t_seq = [("kw", kw("CREATE")), ("kw", kw("SEQUENCE")), ("name", ids), ("kw", kw("START")), ("val", kw("5"))]
